@@ -203,6 +203,9 @@ Section Exact.
   Lemma tokens_eta tk : (fst tk, snd tk) = tk.
   Proof. destruct tk; reflexivity. Qed.
 
+  Lemma s_tokens_set s tk : s_tokens (set_tokens s tk) = tk.
+  Proof. unfold s_tokens; cbn. apply tokens_eta. Qed.
+
   (** ** Flow 1.1: coin -> token, contract owned by the module *)
   Lemma cc_native_coin_exact s p d a r u s' :
     convert_coin_native_coin xcall MODULE s p d a r u = Ok s' ->
@@ -224,23 +227,373 @@ Section Exact.
     apply send_coins_inv in S as (VD & P & L & ->).
     apply evm_call_inv in E as [(_ & _ & _ & tk1 & T1 & ->)|[-> _]]; [|cbn in O; discriminate].
     apply balance_of_some in B1 as (_ & _ & tk2 & T2 & ->).
-    rewrite sent_tokens in T1. cbn [s_tokens set_tokens s_mtok s_ext] in T1, T2.
-    rewrite tokens_eta in T1, T2.
+    rewrite sent_tokens, s_tokens_set in T1. rewrite s_tokens_set in T2.
     destruct (sent_proj (set_tokens s tk0) u MODULE d a) as (Q1 & Q2 & Q3 & Q4 & Q5 & Q6 & Q7 & Q8 & Q9 & _ & _).
     cbn [s_bank set_tokens] in L.
     repeat split; try assumption.
-    - intros x y. cbn [s_bank set_tokens]. rewrite sent_bank. cbn [s_bank set_tokens]. lia.
-    - intro y. cbn [s_supply set_tokens]. rewrite Q6. cbn. lia.
-    - cbn [set_tokens s_params]. rewrite Q1. reflexivity.
-    - cbn [set_tokens s_evm_call]. rewrite Q2. reflexivity.
-    - cbn [set_tokens s_pairs]. rewrite Q3. reflexivity.
-    - cbn [set_tokens s_erc20]. rewrite Q4. reflexivity.
-    - cbn [set_tokens s_denom]. rewrite Q5. reflexivity.
-    - cbn [set_tokens s_blocked]. rewrite Q7. reflexivity.
-    - cbn [set_tokens s_send_default]. rewrite Q8. reflexivity.
-    - cbn [set_tokens s_send]. rewrite Q9. reflexivity.
+    - intros x y. cbn [s_bank set_tokens]. rewrite sent_bank. cbn [s_bank set_tokens]. ring.
+    - intro y. cbn [s_supply set_tokens]. rewrite Q6. cbn [s_supply set_tokens]. ring.
     - intro x. cbn [set_tokens s_accts]. rewrite sent_accts. cbn [set_tokens s_accts]. reflexivity.
-    - exists res, tk0, v0, tk1, v1. cbn [s_tokens set_tokens s_mtok s_ext]. rewrite tokens_eta.
+    - exists res, tk0, v0, tk1, v1. rewrite s_tokens_set. repeat split; assumption.
+  Qed.
+
+  Ltac ind_cases :=
+    unfold ind;
+    repeat match goal with |- context [Z.eqb ?a ?b] => destruct (Z.eqb_spec a b) end;
+    repeat match goal with |- context [bytes_eqb ?a ?b] => destruct (bytes_eqb_spec a b) end;
+    subst; cbn [andb]; try lia; try congruence.
+
+  (** ** Flow 1.2: token -> coin, contract owned by the module *)
+  Lemma ce_native_coin_exact s p d a r u s' :
+    convert_erc20_native_coin xcall MODULE s p d a r u = Ok s' ->
+    valid_denom d = true /\ 0 < a /\ a <= bget (s_bank s) MODULE d /\ zmem r (s_blocked s) = false /\
+    bank_shift s s' (fun x y => ind ((x =? MODULE) && bytes_eqb y d) (- a) + ind ((x =? r) && bytes_eqb y d) a) /\
+    supply_shift s s' (fun _ => 0) /\ same_gates s s' /\ accts_plus s s' r /\ zmem MODULE (s_accts s) = true /\
+    exists res, token_effect (s_tokens s) (s_tokens s') (p_erc20 p) MODULE (CBurnCoins u a) u (- a) res.
+  Proof.
+    unfold convert_erc20_native_coin.
+    destruct (get_balance s r d) as [bc0| |] eqn:G0; cbn [obind]; try discriminate.
+    destruct (balance_of xcall MODULE s (p_erc20 p) u) as [s0 b0] eqn:B0.
+    destruct (evm_call xcall MODULE s0 (p_erc20 p) MODULE (CBurnCoins u a)) as [s1 res] eqn:E.
+    destruct (cr_ok res) eqn:O; cbn [negb]; [|discriminate].
+    destruct (send_module_to_account MODULE s1 r d a) as [s2| |] eqn:S; cbn [obind]; try discriminate.
+    destruct (get_balance s2 r d) as [bc1| |] eqn:G1; cbn [obind]; try discriminate.
+    destruct (bc1 =? bc0 + a); cbn [negb]; [|discriminate].
+    destruct (balance_of xcall MODULE s2 (p_erc20 p) u) as [s3 b1] eqn:B1.
+    destruct b0 as [v0|]; [|discriminate]. destruct b1 as [v1|]; [|discriminate].
+    destruct (v1 =? v0 - a) eqn:V; [|discriminate]. apply Z.eqb_eq in V.
+    intro H; inversion H; subst s3; clear H.
+    apply balance_of_some in B0 as (A0 & C0 & tk0 & T0 & ->).
+    apply evm_call_inv in E as [(_ & _ & _ & tk1 & T1 & ->)|[-> _]]; [|cbn in O; discriminate].
+    apply send_module_inv in S as (BL & VD & P & L & ->).
+    apply balance_of_some in B1 as (_ & _ & tk2 & T2 & ->).
+    rewrite s_tokens_set in T1. rewrite sent_tokens, s_tokens_set in T2.
+    destruct (sent_proj (set_tokens (set_tokens s tk0) tk1) MODULE r d a) as (Q1 & Q2 & Q3 & Q4 & Q5 & Q6 & Q7 & Q8 & Q9 & _ & _).
+    cbn [s_bank s_blocked set_tokens] in L, BL.
+    repeat split; try assumption.
+    - intros x y. cbn [s_bank set_tokens]. rewrite sent_bank. cbn [s_bank set_tokens]. ring.
+    - intro y. cbn [s_supply set_tokens]. rewrite Q6. cbn [s_supply set_tokens]. ring.
+    - intro x. cbn [set_tokens s_accts]. rewrite sent_accts. cbn [set_tokens s_accts]. reflexivity.
+    - exists res, tk0, v0, tk1, v1. rewrite s_tokens_set. repeat split; assumption.
+  Qed.
+
+  (** ** Flow 2.1: token -> voucher coin, external contract *)
+  Lemma ce_native_token_exact s p d a r u s' :
+    convert_erc20_native_token xcall MODULE s p d a r u = Ok s' ->
+    valid_denom d = true /\ 0 < a /\ zmem r (s_blocked s) = false /\ zmem u (s_accts s) = true /\
+    bank_shift s s' (fun x y => ind ((x =? r) && bytes_eqb y d) a) /\
+    supply_shift s s' (fun y => ind (bytes_eqb y d) a) /\ same_gates s s' /\ accts_plus s s' r /\
+    zmem MODULE (s_accts s) = true /\
+    exists res, token_effect (s_tokens s) (s_tokens s') (p_erc20 p) u (CTransfer MODULE a) MODULE a res /\
+                unpack_bool (cr_ret res) = Some true /\ approval_check (cr_logs res) = Ok tt.
+  Proof.
+    unfold convert_erc20_native_token.
+    destruct (get_balance s r d) as [bc0| |] eqn:G0; cbn [obind]; try discriminate.
+    destruct (balance_of xcall MODULE s (p_erc20 p) MODULE) as [s0 b0] eqn:B0.
+    destruct (evm_call xcall MODULE s0 (p_erc20 p) u (CTransfer MODULE a)) as [s1 res] eqn:E.
+    destruct (cr_ok res) eqn:O; cbn [negb]; [|discriminate].
+    destruct (unpack_bool (cr_ret res)) as [[|]|] eqn:U; try discriminate.
+    destruct (balance_of xcall MODULE s1 (p_erc20 p) MODULE) as [s2 b1] eqn:B1.
+    destruct b0 as [v0|]; [|discriminate]. destruct b1 as [v1|]; [|discriminate].
+    destruct (v1 =? v0 + a) eqn:V; cbn [negb]; [|discriminate]. apply Z.eqb_eq in V.
+    destruct (mint_coins MODULE s2 d a) as [s3| |] eqn:M; cbn [obind]; try discriminate.
+    destruct (send_module_to_account MODULE s3 r d a) as [s4| |] eqn:S; cbn [obind]; try discriminate.
+    destruct (get_balance s4 r d) as [bc1| |] eqn:G1; cbn [obind]; try discriminate.
+    destruct (bc1 =? bc0 + a); cbn [negb]; [|discriminate].
+    destruct (approval_check (cr_logs res)) as [[]| |] eqn:AP; cbn [obind]; try discriminate.
+    intro H; inversion H; subst s4; clear H.
+    apply balance_of_some in B0 as (A0 & C0 & tk0 & T0 & ->).
+    apply evm_call_inv in E as [(_ & AU & _ & tk1 & T1 & ->)|[-> _]]; [|cbn in O; discriminate].
+    apply balance_of_some in B1 as (_ & _ & tk2 & T2 & ->).
+    apply mint_coins_inv in M as (VD & P & ->).
+    apply send_module_inv in S as (BL & _ & _ & L & ->).
+    rewrite s_tokens_set in T1, T2.
+    match goal with |- context [sent ?st MODULE r d a] =>
+      destruct (sent_proj st MODULE r d a) as (Q1 & Q2 & Q3 & Q4 & Q5 & Q6 & Q7 & Q8 & Q9 & Q10 & Q11);
+      pose proof (sent_tokens st MODULE r d a) as QT end.
+    cbn [s_bank s_blocked s_accts set_tokens set_supply set_bank] in L, BL, AU.
+    repeat split; try assumption.
+    - intros x y. rewrite sent_bank. cbn [s_bank set_tokens set_supply set_bank]. rewrite bget_bset.
+      rewrite (Z.eqb_sym MODULE x), (bytes_eqb_sym d y). ind_cases.
+    - intro y. rewrite Q6. cbn [s_supply set_tokens set_supply set_bank]. rewrite sget_sset.
+      rewrite (bytes_eqb_sym d y). ind_cases.
+    - intro x. rewrite sent_accts. cbn [set_tokens set_supply set_bank s_accts]. reflexivity.
+    - exists res. split; [|split; assumption].
+      exists tk0, v0, tk1, v1. rewrite QT. unfold s_tokens at 2. cbn [s_mtok s_ext set_supply set_bank].
+      fold (s_tokens (set_tokens (set_tokens (set_tokens s tk0) tk1) tk2)). rewrite s_tokens_set.
       repeat split; assumption.
   Qed.
+
+  (** ** Flow 2.2: voucher coin -> token, external contract *)
+  Lemma cc_native_erc20_exact s p d a r u s' :
+    convert_coin_native_erc20 xcall MODULE s p d a r u = Ok s' ->
+    valid_denom d = true /\ 0 < a /\ a <= bget (s_bank s) u d /\ a <= sget (s_supply s) d /\
+    bank_shift s s' (fun x y => ind ((x =? u) && bytes_eqb y d) (- a)) /\
+    supply_shift s s' (fun y => ind (bytes_eqb y d) (- a)) /\ same_gates s s' /\ accts_plus s s' MODULE /\
+    zmem MODULE (s_accts s) = true /\
+    exists res, token_effect (s_tokens s) (s_tokens s') (p_erc20 p) MODULE (CTransfer r a) r a res /\
+                unpack_bool (cr_ret res) = Some true /\ approval_check (cr_logs res) = Ok tt.
+  Proof.
+    unfold convert_coin_native_erc20.
+    destruct (balance_of xcall MODULE s (p_erc20 p) r) as [s0 b0] eqn:B0.
+    destruct (send_coins s0 u MODULE d a) as [s1| |] eqn:S; cbn [obind]; try discriminate.
+    destruct (evm_call xcall MODULE s1 (p_erc20 p) MODULE (CTransfer r a)) as [s2 res] eqn:E.
+    destruct (cr_ok res) eqn:O; cbn [negb]; [|discriminate].
+    destruct (unpack_bool (cr_ret res)) as [[|]|] eqn:U; try discriminate.
+    destruct (balance_of xcall MODULE s2 (p_erc20 p) r) as [s3 b1] eqn:B1.
+    destruct b0 as [v0|]; [|discriminate]. destruct b1 as [v1|]; [|discriminate].
+    destruct (v1 =? v0 + a) eqn:V; cbn [negb]; [|discriminate]. apply Z.eqb_eq in V.
+    destruct (burn_coins MODULE s3 d a) as [s4| |] eqn:BU; cbn [obind]; try discriminate.
+    destruct (approval_check (cr_logs res)) as [[]| |] eqn:AP; cbn [obind]; try discriminate.
+    intro H; inversion H; subst s4; clear H.
+    apply balance_of_some in B0 as (A0 & C0 & tk0 & T0 & ->).
+    apply send_coins_inv in S as (VD & P & L & ->).
+    apply evm_call_inv in E as [(_ & _ & _ & tk1 & T1 & ->)|[-> _]]; [|cbn in O; discriminate].
+    apply balance_of_some in B1 as (_ & _ & tk2 & T2 & ->).
+    apply burn_coins_inv in BU as (_ & _ & L2 & L3 & ->).
+    rewrite sent_tokens, s_tokens_set in T1. rewrite s_tokens_set in T2.
+    destruct (sent_proj (set_tokens s tk0) u MODULE d a) as (Q1 & Q2 & Q3 & Q4 & Q5 & Q6 & Q7 & Q8 & Q9 & _ & _).
+    cbn [s_bank s_supply set_tokens] in L, L2, L3. rewrite Q6 in L3. cbn [s_supply set_tokens] in L3.
+    repeat split; try assumption.
+    - intros x y. cbn [s_bank set_tokens set_supply set_bank]. rewrite bget_bset, !sent_bank.
+      cbn [s_bank set_tokens]. rewrite (Z.eqb_sym MODULE x), (bytes_eqb_sym d y). ind_cases.
+    - intro y. cbn [s_supply set_tokens set_supply set_bank]. rewrite sget_sset, Q6.
+      cbn [s_supply set_tokens]. rewrite (bytes_eqb_sym d y). ind_cases.
+    - intro x. cbn [set_tokens set_supply set_bank s_accts]. rewrite sent_accts. cbn [set_tokens s_accts]. reflexivity.
+    - exists res. split; [|split; assumption].
+      exists tk0, v0, tk1, v1. unfold s_tokens at 2. cbn [s_mtok s_ext set_supply set_bank].
+      fold (s_tokens (set_tokens (set_tokens (sent (set_tokens s tk0) u MODULE d a) tk1) tk2)). rewrite s_tokens_set.
+      repeat split; assumption.
+  Qed.
+
+  (** ** The gate and the dispatch *)
+  Lemma minting_enabled_inv s u r token denom p :
+    minting_enabled s u r token denom = Ok p ->
+    s_params s = true /\ get_denom_map s denom = token_pair_id s token /\ is_nil (token_pair_id s token) = false /\
+    get_pair s (token_pair_id s token) = Some p /\ p_enabled p = true /\ zmem r (s_blocked s) = false /\
+    (u = r \/ send_enabled s denom = true).
+  Proof.
+    unfold minting_enabled. destruct (s_params s); cbn [negb]; [|discriminate].
+    destruct (bytes_eqb (get_denom_map s denom) (token_pair_id s token)) eqn:E; cbn [negb]; [|discriminate].
+    apply bytes_eqb_eq in E.
+    destruct (is_nil (token_pair_id s token)) eqn:N; [discriminate|].
+    destruct (get_pair s (token_pair_id s token)) as [q|] eqn:G; [|discriminate].
+    destruct (p_enabled q) eqn:EN; cbn [negb]; [|discriminate].
+    destruct (zmem r (s_blocked s)) eqn:BL; [discriminate|].
+    destruct (negb (u =? r) && negb (send_enabled s denom)) eqn:SE; [discriminate|].
+    intro H; inversion H; subst q. repeat split; try assumption.
+    destruct (Z.eqb_spec u r) as [->|NE]; [left; reflexivity|]. cbn in SE.
+    right. destruct (send_enabled s denom); [reflexivity | discriminate].
+  Qed.
+
+  Lemma deliver_inv s m s' c :
+    deliver xcall xcontract MODULE s m = (s', c) ->
+    (c = 0%nat /\ validate_basic m = true /\ handle xcall xcontract MODULE s m = Ok s') \/ (c <> 0%nat /\ s' = s).
+  Proof.
+    unfold deliver. destruct (validate_basic m); cbn [negb].
+    - destruct (handle xcall xcontract MODULE s m) as [s1| |]; intro H; inversion H; subst.
+      + left; repeat split; reflexivity.
+      + right; split; [discriminate | reflexivity].
+      + right; split; [discriminate | reflexivity].
+    - intro H; inversion H; subst. right; split; [discriminate | reflexivity].
+  Qed.
+
+  Lemma convert_coin_inv s m s' :
+    convert_coin xcall xcontract MODULE s m = Ok s' ->
+    exists p, minting_enabled s (cc_sender m) (hex_to_addr (cc_receiver m)) (cc_denom m) (cc_denom m) = Ok p /\
+      ((is_contract xcontract s (p_erc20 p) = false /\ s' = delete_pair s p) \/
+       (is_contract xcontract s (p_erc20 p) = true /\ p_owner p = 1 /\
+        convert_coin_native_coin xcall MODULE s p (cc_denom m) (cc_amount m) (hex_to_addr (cc_receiver m)) (cc_sender m) = Ok s') \/
+       (is_contract xcontract s (p_erc20 p) = true /\ p_owner p = 2 /\
+        convert_coin_native_erc20 xcall MODULE s p (cc_denom m) (cc_amount m) (hex_to_addr (cc_receiver m)) (cc_sender m) = Ok s')).
+  Proof.
+    unfold convert_coin.
+    destruct (minting_enabled s (cc_sender m) (hex_to_addr (cc_receiver m)) (cc_denom m) (cc_denom m)) as [p| |]; cbn [obind]; try discriminate.
+    intro H. exists p. split; [reflexivity|].
+    destruct (is_contract xcontract s (p_erc20 p)); cbn [negb] in H.
+    - destruct (Z.eqb_spec (p_owner p) 1) as [O1|_].
+      + right; left. repeat split; assumption.
+      + destruct (Z.eqb_spec (p_owner p) 2) as [O2|_]; [|discriminate].
+        right; right. repeat split; assumption.
+    - left. inversion H. split; reflexivity.
+  Qed.
+
+  Lemma convert_erc20_inv s m s' :
+    convert_erc20 xcall xcontract MODULE s m = Ok s' ->
+    exists p, minting_enabled s (hex_to_addr (ce_sender m)) (ce_receiver m) (ce_contract m) (ce_denom m) = Ok p /\
+      ((is_contract xcontract s (p_erc20 p) = false /\ s' = delete_pair s p) \/
+       (is_contract xcontract s (p_erc20 p) = true /\ p_owner p = 1 /\
+        convert_erc20_native_coin xcall MODULE s p (ce_denom m) (ce_amount m) (ce_receiver m) (hex_to_addr (ce_sender m)) = Ok s') \/
+       (is_contract xcontract s (p_erc20 p) = true /\ p_owner p = 2 /\
+        convert_erc20_native_token xcall MODULE s p (ce_denom m) (ce_amount m) (ce_receiver m) (hex_to_addr (ce_sender m)) = Ok s')).
+  Proof.
+    unfold convert_erc20.
+    destruct (minting_enabled s (hex_to_addr (ce_sender m)) (ce_receiver m) (ce_contract m) (ce_denom m)) as [p| |]; cbn [obind]; try discriminate.
+    intro H. exists p. split; [reflexivity|].
+    destruct (is_contract xcontract s (p_erc20 p)); cbn [negb] in H.
+    - destruct (Z.eqb_spec (p_owner p) 1) as [O1|_].
+      + right; left. repeat split; assumption.
+      + destruct (Z.eqb_spec (p_owner p) 2) as [O2|_]; [|discriminate].
+        right; right. repeat split; assumption.
+    - left. inversion H. split; reflexivity.
+  Qed.
+
+  (** ** Theorems about [deliver] *)
+  (** failure (error or recovered panic, including a failed ValidateBasic): nothing changes *)
+  Theorem deliver_failure_changes_nothing s m s' c :
+    deliver xcall xcontract MODULE s m = (s', c) -> c <> 0%nat -> s' = s.
+  Proof. intros H N. apply deliver_inv in H as [(-> & _)|(_ & ->)]; [contradiction | reflexivity]. Qed.
+
+  (** the pair a MsgConvertCoin resolves to *)
+  Definition cc_pair s (m : msg_cc) : outcome pair :=
+    minting_enabled s (cc_sender m) (hex_to_addr (cc_receiver m)) (cc_denom m) (cc_denom m).
+  Definition ce_pair s (m : msg_ce) : outcome pair :=
+    minting_enabled s (hex_to_addr (ce_sender m)) (ce_receiver m) (ce_contract m) (ce_denom m).
+
+  Theorem deliver_ok_gates s m s' :
+    deliver xcall xcontract MODULE s m = (s', 0%nat) ->
+    validate_basic m = true /\ s_params s = true /\
+    exists p, match m with MCC c => cc_pair s c | MCE c => ce_pair s c end = Ok p /\
+      p_enabled p = true /\
+      let receiver := match m with MCC c => hex_to_addr (cc_receiver c) | MCE c => ce_receiver c end in
+      let sender := match m with MCC c => cc_sender c | MCE c => hex_to_addr (ce_sender c) end in
+      let denom := match m with MCC c => cc_denom c | MCE c => ce_denom c end in
+      zmem receiver (s_blocked s) = false /\ (sender = receiver \/ send_enabled s denom = true) /\
+      get_pair s (get_denom_map s denom) = Some p.
+  Proof.
+    intro H. apply deliver_inv in H as [(_ & V & H)|(N & _)]; [|contradiction].
+    split; [exact V|]. destruct m as [c|c]; cbn [handle] in H.
+    - apply convert_coin_inv in H as (p & M & _). pose proof M as M'.
+      apply minting_enabled_inv in M' as (P & D & _ & G & E & B & S).
+      split; [exact P|]. exists p. cbv zeta. rewrite D. repeat split; assumption.
+    - apply convert_erc20_inv in H as (p & M & _). pose proof M as M'.
+      apply minting_enabled_inv in M' as (P & D & _ & G & E & B & S).
+      split; [exact P|]. exists p. cbv zeta. rewrite D. repeat split; assumption.
+  Qed.
+
+  Theorem disabled_module_refused s m : s_params s = false -> deliver xcall xcontract MODULE s m = (s, 1%nat).
+  Proof.
+    intro P. unfold deliver. destruct (validate_basic m); cbn [negb]; [|reflexivity].
+    destruct m as [c|c]; cbn [handle]; unfold convert_coin, convert_erc20, minting_enabled; rewrite P; reflexivity.
+  Qed.
+
+  Theorem blocked_receiver_refused s m :
+    zmem (match m with MCC c => hex_to_addr (cc_receiver c) | MCE c => ce_receiver c end) (s_blocked s) = true ->
+    deliver xcall xcontract MODULE s m = (s, 1%nat).
+  Proof.
+    intro B. unfold deliver. destruct (validate_basic m); cbn [negb]; [|reflexivity].
+    destruct m as [c|c]; cbn [handle]; unfold convert_coin, convert_erc20, minting_enabled.
+    - destruct (s_params s); cbn [negb obind]; [|reflexivity].
+      destruct (bytes_eqb _ _); cbn [negb obind]; [|reflexivity].
+      destruct (is_nil _); [reflexivity|]. destruct (get_pair _ _) as [p|]; [|reflexivity].
+      destruct (p_enabled p); cbn [negb obind]; [|reflexivity]. rewrite B. reflexivity.
+    - destruct (s_params s); cbn [negb obind]; [|reflexivity].
+      destruct (bytes_eqb _ _); cbn [negb obind]; [|reflexivity].
+      destruct (is_nil _); [reflexivity|]. destruct (get_pair _ _) as [p|]; [|reflexivity].
+      destruct (p_enabled p); cbn [negb obind]; [|reflexivity]. rewrite B. reflexivity.
+  Qed.
+
+  Theorem disabled_pair_refused s m p :
+    get_pair s (token_pair_id s (match m with MCC c => cc_denom c | MCE c => ce_contract c end)) = Some p ->
+    p_enabled p = false -> deliver xcall xcontract MODULE s m = (s, 1%nat).
+  Proof.
+    intros G E. unfold deliver. destruct (validate_basic m); cbn [negb]; [|reflexivity].
+    destruct m as [c|c]; cbn [handle]; unfold convert_coin, convert_erc20, minting_enabled.
+    - destruct (s_params s); cbn [negb obind]; [|reflexivity].
+      destruct (bytes_eqb _ _); cbn [negb obind]; [|reflexivity].
+      destruct (is_nil _); [reflexivity|]. rewrite G, E. reflexivity.
+    - destruct (s_params s); cbn [negb obind]; [|reflexivity].
+      destruct (bytes_eqb _ _); cbn [negb obind]; [|reflexivity].
+      destruct (is_nil _); [reflexivity|]. rewrite G, E. reflexivity.
+  Qed.
+
+  Theorem send_disabled_refused s m :
+    (match m with MCC c => cc_sender c | MCE c => hex_to_addr (ce_sender c) end) <>
+    (match m with MCC c => hex_to_addr (cc_receiver c) | MCE c => ce_receiver c end) ->
+    send_enabled s (match m with MCC c => cc_denom c | MCE c => ce_denom c end) = false ->
+    deliver xcall xcontract MODULE s m = (s, 1%nat).
+  Proof.
+    intros NE SE. unfold deliver. destruct (validate_basic m); cbn [negb]; [|reflexivity].
+    destruct m as [c|c]; cbn [handle]; unfold convert_coin, convert_erc20, minting_enabled.
+    - destruct (s_params s); cbn [negb obind]; [|reflexivity].
+      destruct (bytes_eqb _ _); cbn [negb obind]; [|reflexivity].
+      destruct (is_nil _); [reflexivity|]. destruct (get_pair _ _) as [p|]; [|reflexivity].
+      destruct (p_enabled p); cbn [negb obind]; [|reflexivity].
+      destruct (zmem _ _); [reflexivity|]. rewrite SE.
+      destruct (Z.eqb_spec (cc_sender c) (hex_to_addr (cc_receiver c))); [contradiction|]. reflexivity.
+    - destruct (s_params s); cbn [negb obind]; [|reflexivity].
+      destruct (bytes_eqb _ _); cbn [negb obind]; [|reflexivity].
+      destruct (is_nil _); [reflexivity|]. destruct (get_pair _ _) as [p|]; [|reflexivity].
+      destruct (p_enabled p); cbn [negb obind]; [|reflexivity].
+      destruct (zmem _ _); [reflexivity|]. rewrite SE.
+      destruct (Z.eqb_spec (hex_to_addr (ce_sender c)) (ce_receiver c)); [contradiction|]. reflexivity.
+  Qed.
+
+  (** a successful MsgConvertCoin *)
+  Theorem convert_coin_exact s m s' p :
+    deliver xcall xcontract MODULE s (MCC m) = (s', 0%nat) -> cc_pair s m = Ok p ->
+    let d := cc_denom m in let a := cc_amount m in let u := cc_sender m in let r := hex_to_addr (cc_receiver m) in
+    let c := p_erc20 p in
+    if is_contract xcontract s c then
+      (p_owner p = 1 \/ p_owner p = 2) /\ 0 < a /\ a <= bget (s_bank s) u d /\
+      bank_shift s s' (fun x y => ind ((x =? u) && bytes_eqb y d) (- a)
+                                  + ind ((p_owner p =? 1) && (x =? MODULE) && bytes_eqb y d) a) /\
+      supply_shift s s' (fun y => ind ((p_owner p =? 2) && bytes_eqb y d) (- a)) /\
+      same_gates s s' /\ accts_plus s s' MODULE /\
+      exists res,
+        token_effect (s_tokens s) (s_tokens s') c MODULE (if p_owner p =? 1 then CMint r a else CTransfer r a) r a res /\
+        (p_owner p = 2 -> unpack_bool (cr_ret res) = Some true /\ approval_check (cr_logs res) = Ok tt)
+    else s' = delete_pair s p.
+  Proof.
+    intros H M. apply deliver_inv in H as [(_ & _ & H)|(N & _)]; [|contradiction].
+    cbn [handle] in H. apply convert_coin_inv in H as (q & M' & H). unfold cc_pair in M.
+    rewrite M in M'; inversion M'; subst q; clear M'. cbv zeta.
+    destruct H as [(C & ->)|[(C & O & H)|(C & O & H)]]; rewrite C; [reflexivity| |].
+    - apply cc_native_coin_exact in H as (VD & P & L & BS & SS & G & A & AM & res & TE).
+      rewrite O. cbn [Z.eqb Pos.eqb andb]. destruct G as (? & ? & ? & ? & ? & ? & ? & ?).
+      repeat split; try assumption; try (left; reflexivity).
+      exists res. split; [exact TE|]. intro; discriminate.
+    - apply cc_native_erc20_exact in H as (VD & P & L & L2 & BS & SS & G & A & AM & res & TE & U & AP).
+      rewrite O. cbn [Z.eqb Pos.eqb andb]. destruct G as (? & ? & ? & ? & ? & ? & ? & ?).
+      repeat split; try assumption; try (right; reflexivity).
+      + intros x y. rewrite BS. unfold ind at 3. ring.
+      + exists res. split; [exact TE|]. intro; split; assumption.
+  Qed.
+
+  (** a successful MsgConvertERC20 *)
+  Theorem convert_erc20_exact s m s' p :
+    deliver xcall xcontract MODULE s (MCE m) = (s', 0%nat) -> ce_pair s m = Ok p ->
+    let d := ce_denom m in let a := ce_amount m in let u := hex_to_addr (ce_sender m) in let r := ce_receiver m in
+    let c := p_erc20 p in
+    if is_contract xcontract s c then
+      (p_owner p = 1 \/ p_owner p = 2) /\ 0 < a /\ zmem r (s_blocked s) = false /\
+      bank_shift s s' (fun x y => ind ((x =? r) && bytes_eqb y d) a
+                                  + ind ((p_owner p =? 1) && (x =? MODULE) && bytes_eqb y d) (- a)) /\
+      supply_shift s s' (fun y => ind ((p_owner p =? 2) && bytes_eqb y d) a) /\
+      same_gates s s' /\ accts_plus s s' r /\
+      exists res,
+        (if p_owner p =? 1
+         then token_effect (s_tokens s) (s_tokens s') c MODULE (CBurnCoins u a) u (- a) res
+         else token_effect (s_tokens s) (s_tokens s') c u (CTransfer MODULE a) MODULE a res) /\
+        (p_owner p = 2 -> unpack_bool (cr_ret res) = Some true /\ approval_check (cr_logs res) = Ok tt)
+    else s' = delete_pair s p.
+  Proof.
+    intros H M. apply deliver_inv in H as [(_ & _ & H)|(N & _)]; [|contradiction].
+    cbn [handle] in H. apply convert_erc20_inv in H as (q & M' & H). unfold ce_pair in M.
+    rewrite M in M'; inversion M'; subst q; clear M'. cbv zeta.
+    destruct H as [(C & ->)|[(C & O & H)|(C & O & H)]]; rewrite C; [reflexivity| |].
+    - apply ce_native_coin_exact in H as (VD & P & L & BL & BS & SS & G & A & AM & res & TE).
+      rewrite O. cbn [Z.eqb Pos.eqb andb]. destruct G as (? & ? & ? & ? & ? & ? & ? & ?).
+      repeat split; try assumption; try (left; reflexivity).
+      + intros x y. rewrite BS. ring.
+      + exists res. split; [exact TE|]. intro; discriminate.
+    - apply ce_native_token_exact in H as (VD & P & BL & AU & BS & SS & G & A & AM & res & TE & U & AP).
+      rewrite O. cbn [Z.eqb Pos.eqb andb]. destruct G as (? & ? & ? & ? & ? & ? & ? & ?).
+      repeat split; try assumption; try (right; reflexivity).
+      + intros x y. rewrite BS. unfold ind at 3. ring.
+      + exists res. split; [exact TE|]. intro; split; assumption.
+  Qed.
 End Exact.
+
+Arguments bank_shift {X}. Arguments supply_shift {X}. Arguments same_gates {X}. Arguments accts_plus {X}.
+Arguments tok_balance {X}. Arguments token_effect {X}. Arguments sent {X}. Arguments cc_pair {X}. Arguments ce_pair {X}.
